@@ -542,3 +542,41 @@ axiom('mslice.shape', forall([A_, lo_, hi_], z3.Implies(z3.And(0 <= lo_, lo_ <= 
                             [mslice(A_, lo_, hi_)]), ['mslice'], 'numpy')
 axiom('mslice.row', forall([A_, lo_, hi_, i_], mrow(mslice(A_, lo_, hi_), i_) == mrow(A_, lo_ + i_),
                           [mrow(mslice(A_, lo_, hi_), i_)]), ['mslice'], 'numpy')
+
+
+# ---- element-level facts used by the LSH hash (C11): comparison matrix, scaled matrix, matrix product
+mgt01 = F('mgt01', Mat, Real, Mat)         # 0/1 matrix of (M > x)
+c_ = z3.Int('c')
+for _nm, _rel in (('mgt01', lambda a, b: a > b), ('mge01', lambda a, b: a >= b), ('mlt01', lambda a, b: a < b),
+                  ('mle01', lambda a, b: a <= b)):
+    _f = F(_nm, Mat, Real, Mat)
+    axiom(_nm + '.shape', forall([A_, x_], z3.And(mrows(_f(A_, x_)) == mrows(A_), mcols(_f(A_, x_)) == mcols(A_)),
+                                 [_f(A_, x_)]), [_nm], 'numpy')
+    axiom(_nm + '.at', forall([A_, x_, i_, c_], mat_at(_f(A_, x_), i_, c_) ==
+                              z3.If(_rel(mat_at(A_, i_, c_), x_), z3.RealVal(1), z3.RealVal(0)),
+                              [mat_at(_f(A_, x_), i_, c_)]), [_nm], 'numpy')
+axiom('mscale.at', forall([x_, A_, i_, c_], mat_at(mscale(x_, A_), i_, c_) == T.rmul(x_, mat_at(A_, i_, c_)),
+                          [mat_at(mscale(x_, A_), i_, c_)]), ['mscale'], 'algebra')
+axiom('mdot.at', forall([A_, B_, i_, c_], mat_at(mdot(A_, B_), i_, c_) == vdot(mrow(A_, i_), mcol(B_, c_)),
+                        [mat_at(mdot(A_, B_), i_, c_)]), ['mdot'], 'algebra')
+
+
+# np.round(x, k): rounding to k decimals is a function of the value; all the proofs may use is its shape
+mround = F('mround', Mat, Int, Mat)
+rround = F('rround', RSeq, Int, RSeq)
+axiom('mround.shape', forall([A_, d_], z3.And(mrows(mround(A_, d_)) == mrows(A_), mcols(mround(A_, d_)) == mcols(A_)),
+                             [mround(A_, d_)]), ['mround'], 'numpy')
+axiom('rround.len', forall([v_, d_], T.rlen(rround(v_, d_)) == T.rlen(v_), [rround(v_, d_)]), ['rround'], 'numpy')
+
+
+@reg('np.round', 'np.around')
+def _np_round(lib, run, recv, args, kw):
+    a = args[0]
+    k = args[1] if len(args) > 1 else kw.get('decimals', Num(z3.IntVal(0)))
+    if isinstance(a, MatV):
+        return MatV(mround(a.term, intterm(k)))
+    if isinstance(a, SeqV) and a.kind == 'R':
+        return SeqV('R', rround(a.term, intterm(k)))
+    if isinstance(a, (Num, BoolV)):
+        return Num(F('round_to', Real, Int, Real)(real(a), intterm(k)))
+    raise Unsupported('np.round(%r)' % (a,))
